@@ -50,9 +50,10 @@ class Unit:
                  defines=(), cbmc_flags=(), checks=None, unwind=None, unwindset=(), kind="proved",
                  bound="", min_obligations=1, canaries=1, timeout=600, mem_gb=10, tier="quick",
                  malloc_may_fail=False, assumptions=(), trusted=(), native=False, native_src=(),
-                 what="", backend=None, object_bits=None, keep_bodies=None, covers=0,
+                 what="", backend=None, object_bits=12, keep_bodies=None, covers=0,
                  restrict_fp=None, nondet_static=False, drop_checks=(), slice_spec=None,
-                 thorough_defines=None, thorough_unwind=None, quick_bound="", thorough_bound=""):
+                 thorough_defines=None, thorough_unwind=None, quick_bound="", thorough_bound="",
+                 cover_functions=None, cover_allow=(), cover=True):
         self.uid = uid
         self.prop = prop
         self.harness = harness          # path relative to /verif
@@ -95,6 +96,10 @@ class Unit:
         self.thorough_unwind = thorough_unwind
         self.quick_bound = quick_bound
         self.thorough_bound = thorough_bound
+        # reachability guard: every basic block of these real functions must be reachable under the contract
+        self.cover = cover
+        self.cover_functions = cover_functions  # default: the enforced function / none for lemma harnesses
+        self.cover_allow = list(cover_allow)    # regexes on the source text of a block that may be unreachable
 
 
 class Undecided(Exception):
@@ -145,37 +150,63 @@ def prepare_scratch():
         open(p, "w").write(txt)
 
 
-# ---------------------------------------------------------------- block slices
+# ---------------------------------------------------------------- scratch copies: block slices, loop annotations
+def _find_function(src_lines, func_re, fname):
+    fpat = re.compile(func_re)
+    starts = [i for i, l in enumerate(src_lines) if fpat.search(l)]
+    if len(starts) != 1:
+        raise Undecided("annotation/slice no longer attaches: function anchor %r matched %d times in %s"
+                        % (func_re, len(starts), fname))
+    fs = starts[0]
+    fe = next((i for i in range(fs + 1, len(src_lines)) if src_lines[i].startswith("}")), None)
+    if fe is None:
+        raise Undecided("end of function %r not found in %s" % (func_re, fname))
+    return fs, fe
+
+
 def make_slice(u, udir):
-    """Mechanical block slice (DESIGN §4): copy the statement range [first,last] of function
-    `func` in /repo file `file` into a new function appended to a scratch copy of that file.
-    Anchors must each match exactly once inside the function, and the range must be brace
-    balanced; otherwise Undecided ('slice no longer attaches')."""
+    """Mechanical per-run transformations of a scratch copy of a /repo file (DESIGN §3.4, §4):
+      kind 'annot': insert loop-contract clauses (text owned by /verif) between a loop header and its body;
+                    the loop header line is located by its exact text inside the named function and must fire
+                    exactly once.  Removing the inserted text gives back the original file byte for byte
+                    (checked), so the verified text is the repository's code plus annotations.
+      kind 'slice': copy the statement range [first,last] of a kernel into a new function appended to the copy
+                    (what is dropped: everything of the kernel outside the range).
+    An anchor that does not fire is Undecided ('no longer attaches'), never a violation."""
     sp = u.slice_spec
     specs = sp if isinstance(sp, list) else [sp]
-    outs = {}
+    files = {}
     for s in specs:
-        path = os.path.join(REPO, s["file"])
         key = s["file"]
-        if key not in outs:
-            outs[key] = open(path).read().split("\n")
-        lines = outs[key]
-        src_lines = open(path).read().split("\n")
-        # locate function
-        fpat = re.compile(s["func_re"])
-        starts = [i for i, l in enumerate(src_lines) if fpat.search(l)]
-        if len(starts) != 1:
-            raise Undecided("slice no longer attaches: function anchor %r matched %d times in %s"
-                            % (s["func_re"], len(starts), s["file"]))
-        fs = starts[0]
-        # end of function: first line that is exactly '}' at column 0 after fs
-        fe = next((i for i in range(fs + 1, len(src_lines)) if src_lines[i].startswith("}")), None)
-        if fe is None:
-            raise Undecided("slice: end of function not found")
+        if key not in files:
+            orig = open(os.path.join(REPO, key)).read().split("\n")
+            files[key] = {"orig": orig, "inserts": [], "append": []}
+        f = files[key]
+        src_lines = f["orig"]
+        fs, fe = _find_function(src_lines, s["func_re"], key)
 
         def find(anchor, lo, hi):
-            hits = [i for i in range(lo, hi) if src_lines[i].strip() == anchor.strip()]
-            return hits
+            return [i for i in range(lo, hi) if src_lines[i].strip() == anchor.strip()]
+        if s.get("kind", "slice") == "annot":
+            hits = find(s["loop"], fs, fe)
+            occ = s.get("occurrence")
+            if occ is not None and len(hits) > occ:
+                hits = [hits[occ]]
+            if len(hits) != 1:
+                raise Undecided("loop annotation %s no longer attaches: header %r matched %d times in %s"
+                                % (s["name"], s["loop"], len(hits), s["func_re"]))
+            ln = src_lines[hits[0]]
+            if s.get("do_while"):
+                # contract of a do-while goes after its `while (cond)`: the line is `} while (...);`
+                if not ln.rstrip().endswith(";"):
+                    raise Undecided("loop annotation %s: do-while tail does not end with ';'" % s["name"])
+                pos = len(ln.rstrip()) - 1
+            else:
+                if not ln.rstrip().endswith("{"):
+                    raise Undecided("loop annotation %s: loop header line does not end with '{'" % s["name"])
+                pos = len(ln.rstrip()) - 1
+            f["inserts"].append((hits[0], pos, "\n" + s["text"].strip("\n") + "\n"))
+            continue
         a = find(s["first"], fs, fe)
         occ = s.get("first_occurrence")
         if occ is not None and len(a) > occ:
@@ -184,32 +215,44 @@ def make_slice(u, udir):
             raise Undecided("slice no longer attaches: first anchor %r matched %d times in %s"
                             % (s["first"], len(a), s["func_re"]))
         b = find(s["last"], a[0], fe)
-        if s.get("last_first_after", True) and b:
-            b = [b[0]]
+        if b:
+            b = [b[s.get("last_occurrence", 0)]] if len(b) > s.get("last_occurrence", 0) else []
         if len(b) != 1:
-            raise Undecided("slice no longer attaches: last anchor %r matched %d times after first"
-                            % (s["last"], len(b)))
+            raise Undecided("slice no longer attaches: last anchor %r not found after the first" % (s["last"],))
         body = src_lines[a[0]:b[0] + 1]
         txt = "\n".join(body)
         stripped = re.sub(r'"(\\.|[^"\\])*"', '""', re.sub(r"//.*", "", txt))
         if stripped.count("{") != stripped.count("}"):
             raise Undecided("slice %s: range is not brace balanced" % s["name"])
-        for forbidden in s.get("forbid", ["return", "goto "]):
-            if re.search(r"\b" + re.escape(forbidden), stripped):
-                if not s.get("allow_" + forbidden.strip(), False):
-                    raise Undecided("slice %s: range contains '%s'" % (s["name"], forbidden.strip()))
+        for forbidden in ("return", "goto", "break", "continue"):
+            if forbidden in s.get("allow", ()):
+                continue
+            if re.search(r"\b" + forbidden + r"\b", stripped):
+                raise Undecided("slice %s: range contains '%s'" % (s["name"], forbidden))
         fn = ["", "/* ---- mechanical block slice of %s lines %d-%d of %s ---- */"
-              % (s["func_re"], a[0] + 1, b[0] + 1, s["file"]),
+              % (s["func_re"], a[0] + 1, b[0] + 1, key),
               "%s %s(%s) {" % (s.get("ret", "void"), s["name"], s["params"])]
         fn += s.get("prologue", [])
         fn += body
         fn += s.get("epilogue", [])
         fn += ["}"]
-        outs[key] = lines + fn
+        f["append"] += fn
         s["_range"] = (a[0] + 1, b[0] + 1)
     res = {}
-    for key, lines in outs.items():
-        op = os.path.join(udir, "slice_" + os.path.basename(key))
+    for key, f in files.items():
+        lines = list(f["orig"])
+        for (li, pos, text) in sorted(f["inserts"], reverse=True):
+            lines[li] = lines[li][:pos] + text + lines[li][pos:]
+        # check: removing the inserted text restores the original
+        chk = "\n".join(lines)
+        for (li, pos, text) in f["inserts"]:
+            if chk.count(text) != 1:
+                raise Undecided("annotation text not unique in scratch copy of %s" % key)
+            chk = chk.replace(text, "")
+        if chk != "\n".join(f["orig"]):
+            raise Undecided("scratch copy of %s differs from the original by more than the annotations" % key)
+        lines += f["append"]
+        op = os.path.join(udir, "scratch_" + os.path.basename(key))
         open(op, "w").write("\n".join(lines))
         res[key] = op
     return res
@@ -253,7 +296,7 @@ def build_unit(u, tier, extra_defines=(), tag=""):
     if u.slice_spec:
         sl = make_slice(u, udir)
         for k, p in sl.items():
-            macro = "SLICE_" + re.sub(r"\W", "_", os.path.basename(k))
+            macro = "SCRATCH_" + re.sub(r"\W", "_", os.path.basename(k))
             dflags.append('-D%s="%s"' % (macro, p))
     harness = os.path.join(VERIF, u.harness)
     # 1. syntax pre-check with gcc (goto-cc accepts some signature mismatches silently)
@@ -384,6 +427,82 @@ def run_cbmc(u, gb, udir, tier, extra=(), trace_prop=None):
             raise Undecided("solver out of memory (%s, limit %s GB)" % (u.uid, u.mem_gb))
         raise Undecided("verifier ended without a verdict rc=%s (%s): %s" % (rc, u.uid, txt[-600:] or err[-600:]))
     return results, msgs, status, t, " ".join(cmd)
+
+
+def run_cover(u, gb, udir, tier):
+    """Vacuity guard: cbmc --cover location; every basic block of the real function(s) under contract must be
+    reachable (a loop step that dies on a contradictory assumption proves its invariant vacuously)."""
+    funcs = u.cover_functions
+    if funcs is None:
+        funcs = [u.enforce] if u.enforce else []
+    if not funcs or not u.cover:
+        return None
+    cmd = ["cbmc", gb, "--json-ui", "--cover", "location"] + list(u.cbmc_flags)
+    cmd += ["--no-malloc-may-fail"] if not u.malloc_may_fail else ["--malloc-may-fail", "--malloc-fail-null"]
+    unwind = u.unwind if not (tier == "thorough" and u.thorough_unwind is not None) else u.thorough_unwind
+    if unwind is not None:
+        cmd += ["--unwind", str(unwind)]
+    for us in u.unwindset:
+        cmd += ["--unwindset", us]
+    if u.object_bits:
+        cmd += ["--object-bits", str(u.object_bits)]
+    rc, out, err, t, to = sh(cmd, timeout=u.timeout, mem_gb=u.mem_gb)
+    if to:
+        raise Undecided("reachability (cover) run timed out (%s)" % u.uid)
+    try:
+        d = json.loads(out)
+    except Exception:
+        raise Undecided("reachability (cover) run gave no parsable output (%s)" % u.uid)
+    goals = None
+    for e in d:
+        if isinstance(e, dict) and "goals" in e:
+            goals = e["goals"]
+    if goals is None:
+        raise Undecided("reachability (cover) run ended without goals (%s)" % u.uid)
+    srccache = {}
+    total, dead = 0, []
+    # blocks of the real body: goal ids `<f>_wrapped_for_contract_checking.coverage.N` (dfcc) or `<f>.coverage.N`
+    prefixes = tuple([f + "_wrapped_for_contract_checking.coverage." for f in funcs] +
+                     ([f + ".coverage." for f in funcs] if u.mode != "dfcc" or not u.enforce else
+                      [f + ".coverage." for f in funcs if f != u.enforce]))
+    special = re.compile(r"^\s*(while|for|do)\b|^\s*\}\s*while\b|VERIF_LOOP_|^\s*[{}]*\s*$|^\s*//")
+    for g in goals:
+        if not g.get("goal", "").startswith(prefixes):
+            continue
+        lines = []
+        for fn, m in g.get("basicBlockLines", {}).items():
+            if fn.startswith(VERIF) and SCRATCH not in fn:
+                continue  # contract clause evaluation, not real code
+            for _, rng in m.items():
+                for part in rng.split(","):
+                    if "-" in part:
+                        a, b = part.split("-")
+                        lines += [(fn, i) for i in range(int(a), int(b) + 1)]
+                    elif part.strip().isdigit():
+                        lines.append((fn, int(part)))
+        txt = []
+        for fn, ln in lines:
+            if fn not in srccache:
+                try:
+                    srccache[fn] = open(fn if os.path.isabs(fn) else os.path.join(VERIF, fn)).read().split("\n")
+                except OSError:
+                    srccache[fn] = []
+            if 0 < ln <= len(srccache[fn]):
+                t_ = srccache[fn][ln - 1]
+                # function header lines and loop headers/annotations carry instrumentation blocks
+                if special.search(t_) or re.search(r"\b(%s)\s*\(.*\{\s*$" % "|".join(map(re.escape, funcs)), t_):
+                    continue
+                txt.append((ln, t_.strip()))
+        if not txt:
+            continue
+        total += 1
+        if g.get("status") == "satisfied":
+            continue
+        text = " ".join(x[1] for x in txt)
+        if any(re.search(a, text) for a in u.cover_allow):
+            continue
+        dead.append("%s:%s `%s`" % (os.path.basename(lines[0][0]), ",".join(str(x[0]) for x in txt[:4]), text[:120]))
+    return {"blocks": total, "unreachable": dead, "seconds": round(t, 1)}
 
 
 # ---------------------------------------------------------------- counterexample -> inputs
@@ -545,7 +664,7 @@ def run_unit(u, tier, known):
                           for r in (ok[:: max(1, len(ok) // 3)][:3])]
         alltxt = " ".join(m[1] for m in msgs) + itext
         # --- guards
-        if other:
+        if other and not failed:
             raise Undecided("obligations with status %s (%s)" % (other[0].get("status"), u.uid))
         if re.search(r"ignoring (forall|exists)", alltxt):
             raise Undecided("back end ignored a quantifier (%s)" % u.uid)
@@ -574,6 +693,16 @@ def run_unit(u, tier, known):
             res["udir"] = udir
             res["gb"] = gb
         else:
+            cv = run_cover(u, gb, udir, tier)
+            if cv is not None:
+                res["reachability"] = {"blocks_of_functions_under_contract": cv["blocks"],
+                                       "unreachable": len(cv["unreachable"]), "seconds": cv["seconds"]}
+                if cv["blocks"] == 0:
+                    raise Undecided("vacuity guard: no basic block of %s found in the coverage run" % u.enforce)
+                if cv["unreachable"]:
+                    raise Undecided("vacuity guard: %d basic block(s) of the function under contract are unreachable "
+                                    "under its contract (dead step => vacuous proof): %s"
+                                    % (len(cv["unreachable"]), "; ".join(cv["unreachable"][:4])))
             res["verdict"] = "discharged"
         # --- known findings of this unit: confirm they are still present (without the exclusion)
         res["known"] = []
@@ -777,7 +906,7 @@ def write_evidence(prop, tier, seed, results, sel, wall, violations, undecided, 
         "functions_under_contract": funcs,
         "units": [{k: r.get(k) for k in ("unit", "kind", "verdict", "functions", "mode", "backend", "obligations",
                                          "discharged", "solver_s", "wall_s", "what", "cmd", "canaries_reached",
-                                         "loop_contracts_applied", "reason", "known", "replay") if r.get(k) is not None}
+                                         "loop_contracts_applied", "reachability", "reason", "known", "replay") if r.get(k) is not None}
                   for u, r in results],
         "bounded_units": [{"unit": u.uid, "bound": (u.thorough_bound if tier == "thorough" and u.thorough_bound
                                                     else (u.quick_bound or u.bound)),
